@@ -15,9 +15,10 @@ EXPLANATION = (
     "by name and its subdirectories by apath before queueing, children go to the entry queue and subdirectories "
     "only to the directory queue; (3) every hand-written construction of an Apath from an external string is behind "
     "is_valid (append takes one file-system name)."
+    " Added: is_valid carries the complete set of tests for the idiom it uses (C11.3b); the comparator byte-compares single components only (C11.1d)."
 )
 UNDECIDED = ["totality / transitivity / agreement of the comparator with the documented rule for all strings",
-             "the exact language accepted by is_valid", "serde's derive(Deserialize) bypasses is_valid (reported as an observation, see C10)"]
+             "the language accepted by is_valid beyond the presence of the complete test set for the idiom used (C11.3b)", "serde's derive(Deserialize) bypasses is_valid (reported as an observation, see C10)"]
 ASSUMPTIONS = []
 
 ORDER_CALLS = ("std::cmp::Ord::cmp", "std::cmp::PartialOrd::lt", "std::cmp::PartialOrd::le", "std::cmp::PartialOrd::gt",
